@@ -1298,4 +1298,259 @@ theorem validateParseTree_terminates (root : Nat) (nodes : Array ParseNode) : va
   rw [h] at key
   exact key
 
+/-! ## what a successful `validate_parse_tree` establishes -/
+
+/-- `c` is a proper child of node `i`: it exists and names `i` as its parent -/
+def ChildOk (tree : Array ParseNode) (G : Nat → Prop) (i : Nat) (child : Option Nat) : Prop :=
+  ∀ c, child = some c → G c ∧ ∃ cn, tree[c]? = some cn ∧ cn.parent = some i
+
+/-- node `i` exists and both its links are proper children inside `G` -/
+def Closed (tree : Array ParseNode) (G : Nat → Prop) (i : Nat) : Prop :=
+  ∃ pn, tree[i]? = some pn ∧ ChildOk tree G i pn.left ∧ ChildOk tree G i pn.right
+
+theorem childOk_none {tree : Array ParseNode} {G : Nat → Prop} {i : Nat} {child : Option Nat} (h : child = none) :
+    ChildOk tree G i child := fun c hc => by rw [h] at hc; cases hc
+
+structure Validated (root : Nat) (tree : Array ParseNode) (G : Nat → Prop) : Prop where
+  rootIn : G root
+  rootParent : ∃ pn : ParseNode, tree[root]? = some pn ∧ pn.parent = none
+  closed : ∀ i, G i → Closed tree G i
+  rest : ∀ (i : Nat) (pn : ParseNode), tree[i]? = some pn → ¬ G i → pn.definition = .subexpression
+
+def Vis (v : Array Bool) (i : Nat) : Prop := v[i]? = some true
+
+theorem vis_set {v : Array Bool} {c i : Nat} (h : Vis v i) : Vis (v.setIfInBounds c true) i := by
+  unfold Vis at *
+  rw [Array.getElem?_setIfInBounds]
+  split
+  · rename_i hci
+    subst hci
+    have : c < v.size := by
+      rcases Nat.lt_or_ge c v.size with h1 | h1
+      · exact h1
+      · rw [Array.getElem?_eq_none h1] at h; cases h
+    simp [this]
+  · exact h
+
+theorem vis_set_self {v : Array Bool} {c : Nat} {b : Bool} (h : v[c]? = some b) : Vis (v.setIfInBounds c true) c := by
+  unfold Vis
+  rw [Array.getElem?_setIfInBounds]
+  have : c < v.size := by
+    rcases Nat.lt_or_ge c v.size with h1 | h1
+    · exact h1
+    · rw [Array.getElem?_eq_none h1] at h; cases h
+  simp [this]
+
+theorem vis_of_set {v : Array Bool} {c i : Nat} (h : Vis (v.setIfInBounds c true) i) : i = c ∨ Vis v i := by
+  unfold Vis at *
+  rw [Array.getElem?_setIfInBounds] at h
+  split at h
+  · rename_i hci; exact Or.inl hci.symm
+  · exact Or.inr h
+
+theorem closed_mono {tree : Array ParseNode} {G G' : Nat → Prop} (h : ∀ i, G i → G' i) {i : Nat} (hc : Closed tree G i) :
+    Closed tree G' i := by
+  obtain ⟨pn, h1, h2, h3⟩ := hc
+  exact ⟨pn, h1, fun c hc => ⟨h c (h2 c hc).1, (h2 c hc).2⟩, fun c hc => ⟨h c (h3 c hc).1, (h3 c hc).2⟩⟩
+
+/-- what one successful `validateChild` does -/
+theorem validateChild_spec (nodes : Array ParseNode) (index : Nat) (visited : Array Bool) (stack : Array Nat) (child : Nat) :
+    Sat (fun r => (∃ cn, nodes[child]? = some cn ∧ cn.parent = some index) ∧ visited[child]? = some false ∧
+      r = (visited.setIfInBounds child true, stack.push child)) (validateChild nodes index visited stack child) := by
+  unfold validateChild
+  split
+  · rename_i cn cv hn hv
+    split
+    · exact sat_buildErr
+    · rename_i hp
+      split
+      · exact sat_buildErr
+      · rename_i hcv
+        refine ⟨⟨cn, hn, by simpa using hp⟩, ?_, rfl⟩
+        rw [hv]; simp at hcv; rw [hcv]
+  · exact sat_buildErr
+
+/-- the loop invariant: every visited node is still on the stack or closed -/
+def VInv (tree : Array ParseNode) (visited : Array Bool) (stack : Array Nat) : Prop :=
+  ∀ i, Vis visited i → i ∈ stack.toList ∨ Closed tree (Vis visited) i
+
+theorem mem_of_back {stack : Array Nat} {index i : Nat} (hb : stack.back? = some index) (hi : i ∈ stack.toList) :
+    i = index ∨ i ∈ stack.pop.toList := by
+  have hpos := back_some_size_pos hb
+  have hne : stack.toList ≠ [] := by
+    intro h; have : stack.size = 0 := by simpa using congrArg List.length h
+    omega
+  have hlast : stack.toList.getLast? = some index := by rw [Array.getLast?_toList]; exact hb
+  rw [List.getLast?_eq_some_getLast hne] at hlast
+  have hl : stack.toList.getLast hne = index := by simpa using hlast
+  have := List.dropLast_concat_getLast hne
+  rw [hl] at this
+  rw [← this] at hi
+  simp only [List.mem_append, List.mem_singleton] at hi
+  rcases hi with hi | hi
+  · exact Or.inr (by simpa using hi)
+  · exact Or.inl hi
+
+theorem validateLoop_closed (tree : Array ParseNode) : ∀ (fuel : Nat) (visited : Array Bool) (stack : Array Nat),
+    VInv tree visited stack →
+    Sat (fun v => (∀ i, Vis visited i → Vis v i) ∧ v.size = visited.size ∧ ∀ i, Vis v i → Closed tree (Vis v) i)
+      (validateLoop tree fuel visited stack) := by
+  intro fuel
+  induction fuel with
+  | zero => intro _ _ _; exact sat_fuelOut
+  | succ k ih =>
+    intro visited stack hinv
+    unfold validateLoop
+    split
+    · rename_i hnone
+      refine ⟨fun _ h => h, rfl, fun i hi => ?_⟩
+      rcases hinv i hi with h1 | h1
+      · have hsz : stack.size = 0 := by
+          rcases Nat.eq_zero_or_pos stack.size with h0 | h0
+          · exact h0
+          · have : stack.back? = some stack[stack.size - 1] := by
+              simp [Array.back?, Array.getElem?_eq_getElem (show stack.size - 1 < stack.size by omega)]
+            rw [this] at hnone; cases hnone
+        have : stack.toList = [] := by
+          apply List.eq_nil_of_length_eq_zero; simpa using hsz
+        rw [this] at h1; cases h1
+      · exact h1
+    · rename_i index hback
+      split
+      · exact sat_buildErr
+      · rename_i node hnode
+        dsimp only
+        -- left child
+        refine sat_bind (Q := fun r => (∀ i, Vis visited i → Vis r.1 i) ∧ r.1.size = visited.size ∧
+            ChildOk tree (Vis r.1) index node.left ∧
+            (∀ i, Vis r.1 i → Vis visited i ∨ i ∈ r.2.toList) ∧ (∀ i, i ∈ stack.pop.toList → i ∈ r.2.toList)) ?_ (fun r1 h1 => ?_)
+        · split
+          · rename_i hl
+            exact ⟨fun _ h => h, rfl, childOk_none hl, fun i hi => Or.inl hi, fun i hi => hi⟩
+          · rename_i c hl
+            refine sat_mono (validateChild_spec tree index visited stack.pop c) (fun r hr => ?_)
+            obtain ⟨⟨cn, hcn, hpar⟩, hvf, hr⟩ := hr
+            subst hr
+            refine ⟨fun i hi => vis_set hi, by simp, fun c' hc' => ?_, fun i hi => ?_, fun i hi => ?_⟩
+            · rw [hl] at hc'; cases hc'
+              exact ⟨vis_set_self hvf, cn, hcn, hpar⟩
+            · rcases vis_of_set hi with h | h
+              · subst h; exact Or.inr (by simp)
+              · exact Or.inl h
+            · simp only [Array.toList_push, List.mem_append]; exact Or.inl hi
+        · obtain ⟨v1, s1⟩ := r1
+          obtain ⟨m1, sz1, cl1, nw1, st1⟩ := h1
+          dsimp only at m1 sz1 cl1 nw1 st1 ⊢
+          refine sat_bind (Q := fun r => (∀ i, Vis v1 i → Vis r.1 i) ∧ r.1.size = v1.size ∧
+              ChildOk tree (Vis r.1) index node.right ∧
+              (∀ i, Vis r.1 i → Vis v1 i ∨ i ∈ r.2.toList) ∧ (∀ i, i ∈ s1.toList → i ∈ r.2.toList)) ?_ (fun r2 h2 => ?_)
+          · split
+            · rename_i hl
+              exact ⟨fun _ h => h, rfl, childOk_none hl, fun i hi => Or.inl hi, fun i hi => hi⟩
+            · rename_i c hl
+              refine sat_mono (validateChild_spec tree index v1 s1 c) (fun r hr => ?_)
+              obtain ⟨⟨cn, hcn, hpar⟩, hvf, hr⟩ := hr
+              subst hr
+              refine ⟨fun i hi => vis_set hi, by simp, fun c' hc' => ?_, fun i hi => ?_, fun i hi => ?_⟩
+              · rw [hl] at hc'; cases hc'
+                exact ⟨vis_set_self hvf, cn, hcn, hpar⟩
+              · rcases vis_of_set hi with h | h
+                · subst h; exact Or.inr (by simp)
+                · exact Or.inl h
+              · simp only [Array.toList_push, List.mem_append]; exact Or.inl hi
+          · obtain ⟨v2, s2⟩ := r2
+            obtain ⟨m2, sz2, cl2, nw2, st2⟩ := h2
+            dsimp only at m2 sz2 cl2 nw2 st2 ⊢
+            -- the invariant for the next iteration
+            have hinv2 : VInv tree v2 s2 := by
+              intro i hi
+              rcases nw2 i hi with h | h
+              · rcases nw1 i h with h' | h'
+                · rcases hinv i h' with h'' | h''
+                  · rcases mem_of_back hback h'' with h3 | h3
+                    · subst h3
+                      exact Or.inr ⟨node, hnode, fun c hc => ⟨m2 c (cl1 c hc).1, (cl1 c hc).2⟩, cl2⟩
+                    · exact Or.inl (st2 i (st1 i h3))
+                  · exact Or.inr (closed_mono (fun j hj => m2 j (m1 j hj)) h'')
+                · exact Or.inl (st2 i h')
+              · exact Or.inl h
+            refine sat_mono (ih v2 s2 hinv2) (fun v hv => ?_)
+            exact ⟨fun i hi => hv.1 i (m2 i (m1 i hi)), by rw [hv.2.1, sz2, sz1], hv.2.2⟩
+
+
+/-- (C03 a) a successful `validate_parse_tree` establishes: the root exists and has no parent; the set `G` of nodes it
+marked contains the root and is closed under `left`/`right`, every such link is in range and the child names the node
+as its parent (hence no node of `G` has two parents); every node outside `G` is a `Subexpression` -/
+theorem validateParseTree_ok {root : Nat} {tree : Array ParseNode} (h : validateParseTree root tree = .ok ()) :
+    ∃ G : Nat → Prop, Validated root tree G := by
+  unfold validateParseTree at h
+  split at h
+  · cases h
+  · rename_i node hnode
+    split at h
+    · cases h
+    · rename_i hparent
+      dsimp only at h
+      have hlt : root < tree.size := by
+        rcases Nat.lt_or_ge root tree.size with h1 | h1
+        · exact h1
+        · rw [Array.getElem?_eq_none h1] at hnode; cases hnode
+      have hroot0 : (Array.replicate tree.size false)[root]? = some false := by simp [hlt]
+      have hinv0 : VInv tree ((Array.replicate tree.size false).setIfInBounds root true) #[root] := by
+        intro i hi
+        rcases vis_of_set hi with h1 | h1
+        · subst h1; exact Or.inl (by simp)
+        · unfold Vis at h1
+          rw [Array.getElem?_replicate] at h1
+          split at h1 <;> cases h1
+      have key := validateLoop_closed tree (tree.size + 1) _ _ hinv0
+      cases hloop : validateLoop tree (tree.size + 1) ((Array.replicate tree.size false).setIfInBounds root true) #[root] with
+      | ok v =>
+        rw [hloop] at key h
+        obtain ⟨k1, k2, k3⟩ := key
+        simp only [bind_ok] at h
+        split at h
+        · rename_i hall
+          refine ⟨Vis v, k1 root (vis_set_self hroot0), ⟨node, hnode, hparent⟩, k3, ?_⟩
+          intro i pn hpn hnot
+          have hi : i < tree.size := by
+            rcases Nat.lt_or_ge i tree.size with h1 | h1
+            · exact h1
+            · rw [Array.getElem?_eq_none h1] at hpn; cases hpn
+          have hvsz : v.size = tree.size := by rw [k2]; simp
+          have hvi : v.toList[i]? = some v[i] := by
+            simp [hvsz, hi]
+          rw [List.all_eq_true] at hall
+          have hmem : (pn, v[i]) ∈ tree.toList.zip v.toList := by
+            rw [List.mem_iff_getElem?]
+            exact ⟨i, List.getElem?_zip_eq_some.2 ⟨by simpa using hpn, hvi⟩⟩
+          have := hall _ hmem
+          simp only [Bool.or_eq_true, beq_iff_eq] at this
+          rcases this with h1 | h1
+          · exact absurd (show Vis v i by unfold Vis; simp [hvsz, hi, h1]) hnot
+          · exact h1
+        · cases h
+      | err e => rw [hloop] at h; cases h
+      | panic s => rw [hloop] at h; cases h
+      | fuelOut => rw [hloop] at h; cases h
+
+/-- corollary: after a successful validation the root index and every link of a marked node are in range -/
+theorem validateParseTree_links {root : Nat} {tree : Array ParseNode} (h : validateParseTree root tree = .ok ()) :
+    root < tree.size ∧ ∃ G : Nat → Prop, G root ∧
+      ∀ i, G i → ∃ pn, tree[i]? = some pn ∧ (∀ c, pn.left = some c → c < tree.size ∧ G c) ∧
+        (∀ c, pn.right = some c → c < tree.size ∧ G c) := by
+  obtain ⟨G, hG⟩ := validateParseTree_ok h
+  have lt_of_some : ∀ {i : Nat} {pn : ParseNode}, tree[i]? = some pn → i < tree.size := by
+    intro i pn hp
+    rcases Nat.lt_or_ge i tree.size with h1 | h1
+    · exact h1
+    · rw [Array.getElem?_eq_none h1] at hp; cases hp
+  obtain ⟨pn, hpn, _⟩ := hG.rootParent
+  refine ⟨lt_of_some hpn, G, hG.rootIn, fun i hi => ?_⟩
+  obtain ⟨pn, h1, h2, h3⟩ := hG.closed i hi
+  refine ⟨pn, h1, fun c hc => ?_, fun c hc => ?_⟩
+  · obtain ⟨g, cn, hcn, _⟩ := h2 c hc; exact ⟨lt_of_some hcn, g⟩
+  · obtain ⟨g, cn, hcn, _⟩ := h3 c hc; exact ⟨lt_of_some hcn, g⟩
+
+
 end Garnish.Lemmas.Build
